@@ -1,4 +1,5 @@
 import AtsimModel.Model.Ini
+import AtsimModel.Model.Basic
 /-!
 Duplicate detection above the INI layer (C20): `_check_for_duplicate_pairs`, `check_for_duplicate_table_forms`
 (atsim/potentials/config/_config_parser.py) and the label-clash checks of `Potential_Form_Registry`.
@@ -6,11 +7,11 @@ Duplicate detection above the INI layer (C20): `_check_for_duplicate_pairs`, `ch
 namespace Atsim
 
 /-- `_check_for_duplicate_pairs`: walk the pair keys in file order keeping a `seen` set; a pair or its reversal already seen is a duplicate -/
-def dupPairsAux (seen : List (Sp × Sp)) : List (Sp × Sp) → Bool
+def dupPairsAux (seen : List (String × String)) : List (String × String) → Bool
   | [] => false
   | p :: rest => if seen.contains p || seen.contains (p.2, p.1) then true else dupPairsAux (seen ++ [p]) rest
 
-def dupPairs (l : List (Sp × Sp)) : Bool := dupPairsAux [] l
+def dupPairs (l : List (String × String)) : Bool := dupPairsAux [] l
 
 /-- `check_for_duplicate_table_forms`: labels are the text after `Table-Form:` stripped; two sections with one label are duplicates -/
 def dupLabels : List String → Bool
